@@ -23,6 +23,7 @@ import (
 	"bytes"
 	"compress/gzip"
 	"encoding/json"
+	"errors"
 	"fmt"
 	"io"
 	"net/http"
@@ -111,7 +112,10 @@ type chunkReader struct {
 	reads       int
 	minBuf      int
 	gate        *creq
+	abort       bool
 }
+
+var errReset = errors.New("verif: connection reset by peer")
 
 func (c *chunkReader) Read(p []byte) (int, error) {
 	if c.gate != nil {
@@ -123,6 +127,9 @@ func (c *chunkReader) Read(p []byte) (int, error) {
 		c.minBuf = len(p)
 	}
 	if c.i >= len(c.chunks) {
+		if c.abort {
+			return 0, errReset
+		}
 		return 0, io.EOF
 	}
 	rem := c.chunks[c.i] - c.off
@@ -147,6 +154,7 @@ type reqSpec struct {
 	Chunks      []int  `json:"chunks"` // lengths of the transport reads (of the gzip stream when Gzip)
 	Gzip        bool   `json:"gzip,omitempty"`
 	EOFWithLast bool   `json:"eof_with_last,omitempty"`
+	Abort       bool   `json:"abort,omitempty"` // after the chunks the transport fails (connection reset) instead of reporting EOF
 }
 
 type tcase struct {
@@ -296,7 +304,7 @@ func newRequest(es bool, rs reqSpec, body io.ReadCloser) *http.Request {
 
 // runReq runs one request to completion on the calling goroutine.
 func (c *checker) runReq(mode string, p *httpin.Plugin, idx int, rs reqSpec, gate *creq) (res reqResult) {
-	rd := &chunkReader{data: rs.transport(), chunks: rs.Chunks, eofWithLast: rs.EOFWithLast, gate: gate}
+	rd := &chunkReader{data: rs.transport(), chunks: rs.Chunks, eofWithLast: rs.EOFWithLast && !rs.Abort, gate: gate, abort: rs.Abort}
 	defer func() {
 		res.reads = rd.reads
 		res.minBuf = rd.minBuf
@@ -485,6 +493,10 @@ func (c *checker) checkReq(tc *tcase, idx int, res reqResult) (got []string, ok 
 				return fmt.Sprintf("request %d body=%s: panic: %s\n%s", idx, q(rs.Body), res.panicked, res.stack)
 			}, tc)
 		return nil, false
+	}
+	if rs.Abort {
+		// a request whose transport failed mid-body: nothing is demanded of it (it only primes the pools)
+		return nil, true
 	}
 	if res.err != nil {
 		c.viol("error", c.feats(tc), func() string {
@@ -869,6 +881,7 @@ func TestVerif(t *testing.T) {
 		{{Body: "aaaaaaaaa", Chunks: []int{9}}}, // long unterminated line: grows the carry-over buffer
 		{{Body: "ab\nba", Chunks: ones(5), EOFWithLast: true}}, // 1-byte reads, non-empty carry-over at the end
 		{{Body: "bb\nab", Gzip: true, Chunks: []int{len(gz("bb\nab"))}}},
+		{{Body: "ab\nbab", Chunks: []int{4, 3}, Abort: true}}, // the connection breaks in the middle of a line: the carry-over must not leak into the next request
 	}
 	probe := reqSpec{Body: "ba\n\nab", Chunks: []int{1, 3, 2}}
 	probeGz := reqSpec{Body: "ba\n\nab", Gzip: true, Chunks: uniform(len(gz("ba\n\nab")), 9)}
